@@ -5,6 +5,9 @@
 //!            variable i, adds 1 to every global and publishes bound variables on %QW(16*p+2*i))
 //!   every configuration also has an event task (SINGLE := trig) whose program counts its activations in evc; op 6 v sets trig
 //!   and a periodic task (INTERVAL := T#10ms) whose program counts its activations in pc
+//!   ids starting with i: every global g<i> is a FUNCTION_BLOCK INSTANCE (type AccG<i> with one member total : INT := init) declared in
+//!            VAR_GLOBAL [RETAIN]; the programs call it (total := total + 1) instead of incrementing an INT, and g<i> in the observations is
+//!            its member total - for the model it is the same RETAIN / non-RETAIN global; these cases contain no power cycle (op 4)
 //!   ops    = 0 dt (cycle) | 1 i v (set global) | 2 p i v (set program var) | 3 warm(0/1) (restart) | 4 (save, power cycle, load) | 5 (fault)
 //!   obs    = per op: ng values, per program nv values, per bound variable the %QW word, time_ns faulted evc pc
 use std::io::Write;
@@ -17,11 +20,14 @@ use vh::Rng;
 #[derive(Clone, Debug)]
 struct V { retain: bool, init: i64, bound: bool }
 #[derive(Clone, Debug)]
-struct Case { globals: Vec<V>, progs: Vec<Vec<V>>, ops: Vec<Vec<i64>> }
+struct Case { globals: Vec<V>, progs: Vec<Vec<V>>, ops: Vec<Vec<i64>>, fbmode: bool }
 
 fn source(c: &Case) -> String {
-    let mut s = String::from("CONFIGURATION C\n");
+    let mut s = String::new();
+    if c.fbmode { for (i, g) in c.globals.iter().enumerate() { s += &format!("FUNCTION_BLOCK AccG{i}\nVAR\n  total : INT := {};\nEND_VAR\ntotal := total + INT#1;\nEND_FUNCTION_BLOCK\n", g.init); } }
+    s += "CONFIGURATION C\n";
     for (i, g) in c.globals.iter().enumerate() {
+        if c.fbmode { s += &format!("VAR_GLOBAL{} g{i} : AccG{i}; END_VAR\n", if g.retain { " RETAIN" } else { "" }); continue; }
         s += &format!("VAR_GLOBAL{} g{i} : INT := {}; END_VAR\n", if g.retain { " RETAIN" } else { "" }, g.init);
     }
     s += "VAR_GLOBAL trig : BOOL := FALSE; evc : INT := 0; pc : INT := 0; END_VAR\nTASK Ev (SINGLE := trig, PRIORITY := 1);\nTASK Per (INTERVAL := T#10ms, PRIORITY := 2);\nPROGRAM PE WITH Ev : MainE;\nPROGRAM PP WITH Per : MainP;\n";
@@ -31,14 +37,14 @@ fn source(c: &Case) -> String {
         s += &format!("PROGRAM Main{p}\n");
         if !c.globals.is_empty() {
             s += "VAR_EXTERNAL\n";
-            for i in 0..c.globals.len() { s += &format!("  g{i} : INT;\n"); }
+            for i in 0..c.globals.len() { if c.fbmode { s += &format!("  g{i} : AccG{i};\n"); } else { s += &format!("  g{i} : INT;\n"); } }
             s += "END_VAR\n";
         }
         for (i, v) in vars.iter().enumerate() {
             let at = if v.bound { format!(" AT %QW{}", 16 * p + 2 * i) } else { String::new() };
             s += &format!("VAR{} v{i}{at} : INT := {}; END_VAR\n", if v.retain { " RETAIN" } else { "" }, v.init);
         }
-        for i in 0..c.globals.len() { s += &format!("g{i} := g{i} + INT#1;\n"); }
+        for i in 0..c.globals.len() { if c.fbmode { s += &format!("g{i}();\n"); } else { s += &format!("g{i} := g{i} + INT#1;\n"); } }
         for i in 0..vars.len() { s += &format!("v{i} := v{i} + INT#{};\n", p + 1 + i); }
         s += "END_PROGRAM\n";
     }
@@ -55,7 +61,10 @@ fn ival(v: Option<&Value>) -> String {
 fn observe(h: &TestHarness, c: &Case) -> String {
     let st = h.runtime().storage();
     let mut o = String::new();
-    for i in 0..c.globals.len() { o += &format!(" {}", ival(st.get_global(&format!("g{i}")))); }
+    for i in 0..c.globals.len() {
+        if c.fbmode { o += &format!(" {}", match st.get_global(&format!("g{i}")) { Some(Value::Instance(id)) => ival(st.get_instance_var(*id, "total")), other => format!("?{other:?}").replace(' ', "_") }); }
+        else { o += &format!(" {}", ival(st.get_global(&format!("g{i}")))); }
+    }
     for (p, vars) in c.progs.iter().enumerate() {
         let id = match st.get_global(&format!("P{p}")) { Some(Value::Instance(id)) => Some(*id), _ => None };
         for i in 0..vars.len() {
@@ -84,6 +93,7 @@ fn run_case(c: &Case, workdir: &str, tag: &str) -> Result<String, String> {
     for op in &c.ops {
         match op[0] {
             0 => { h.advance_time(Duration::from_nanos(op[1])); let _ = h.cycle(); }
+            1 if c.fbmode => { if let Some(Value::Instance(id)) = h.runtime().storage().get_global(&format!("g{}", op[1])).cloned() { h.runtime_mut().storage_mut().set_instance_var(id, "total".to_string(), Value::Int(op[2] as i16)); } }
             1 => { h.runtime_mut().storage_mut().set_global(format!("g{}", op[1]), Value::Int(op[2] as i16)); }
             2 => {
                 if let Some(Value::Instance(id)) = h.runtime().storage().get_global(&format!("P{}", op[1])).cloned() {
@@ -135,7 +145,8 @@ fn parse_case(line: &str) -> Option<(String, Case)> {
         let w = match o[j] { 0 => 2, 1 => 3, 2 => 4, 3 => 2, 6 => 2, _ => 1 };
         ops.push(o[j..j + w].to_vec()); j += w;
     }
-    Some((parts[0].trim().to_string(), Case { globals, progs, ops }))
+    let fbmode = parts[0].trim().starts_with('i');
+    Some((parts[0].trim().to_string(), Case { globals, progs, ops, fbmode }))
 }
 
 fn gen_case(rng: &mut Rng) -> Case {
@@ -156,7 +167,9 @@ fn gen_case(rng: &mut Rng) -> Case {
             _ => ops.push(vec![0, *rng.pick(&[0i64, 1, 1_000_000, 20_000_000, 5_000_000, 10_000_000, 9_999_999, 35_000_000])]),
         }
     }
-    Case { globals, progs, ops }
+    let fbmode = ng > 0 && rng.chance(1, 4);
+    if fbmode { for op in ops.iter_mut() { if op[0] == 4 { *op = vec![0, 5_000_000]; } } }
+    Case { globals, progs, ops, fbmode }
 }
 
 fn main() {
@@ -178,6 +191,7 @@ fn main() {
     let mut rng = Rng::new(vh::seed_from_env());
     for k in 0..count {
         let c = gen_case(&mut rng);
-        match run_case(&c, &args[3], &format!("c{k}")) { Ok(obs) => writeln!(out, "{}", fmt_case(&format!("c{k}"), &c, &obs)).unwrap(), Err(e) => writeln!(out, "c{k} ERROR {e}").unwrap() }
+        let id = format!("{}{k}", if c.fbmode { "i" } else { "c" });
+        match run_case(&c, &args[3], &id) { Ok(obs) => writeln!(out, "{}", fmt_case(&id, &c, &obs)).unwrap(), Err(e) => writeln!(out, "{id} ERROR {e}").unwrap() }
     }
 }
